@@ -180,6 +180,8 @@ TARGETS = [
     dict(name="x25519-invert", ladder=True, params=[{}]),
     dict(name="x25519-ladder-bounds", ladder=True, params=[{}]),
     dict(name="sc25519-invert", ladder=True, params=[{}]),
+    dict(name="edwards-group-ops", edwards=True, params=[{"op": c} for c in ("add_cached", "sub_cached", "add_precomp", "sub_precomp", "p2_dbl", "p3_dbl", "p1p1_to_p3",
+                                                                              "p1p1_to_p2", "p3_to_cached", "p3_to_p2", "p3_0")]),
     dict(name="fe25519-51-x25519", units=["crypto_scalarmult/curve25519/ref10/x25519_ref10.c", "sodium/utils.c"], cflags=["-fno-inline-functions"], run=fe51_op,
          params=[{"op": "mul"}, {"op": "sq"}, {"op": "mul32", "n": 121666, "out": (1 << 52) - 1},
                  {"op": "add", "in": (1 << 62) - 1, "out": (1 << 63) - 2}, {"op": "sub", "in": (1 << 53) - 1, "out": FE_IN}]),
@@ -247,6 +249,13 @@ def run_one(tname, pidx, workroot):
     p = t["params"][pidx]
     res = {"target": tname, "params": p, "status": "inconclusive", "detail": "", "wall_s": 0.0}
     t0 = time.time()
+    if t.get("edwards"):
+        from . import edwards
+        r = edwards.run(p["op"], workroot)
+        r["params"] = p
+        r["claim"] = ("ge25519_%s satisfies the twisted Edwards addition / doubling law (polynomial identity over GF(2^255-19), every projective "
+                      "representation of the inputs)" % p["op"])
+        return r
     if t.get("ladder"):
         from . import ladder
         r = ladder.run(tname, workroot)
@@ -313,6 +322,11 @@ def run_one(tname, pidx, workroot):
 
 def replay(tname, pidx, workroot, assign_path):
     t = [x for x in TARGETS if x["name"] == tname][0]
+    if t.get("edwards"):
+        from . import edwards
+        r = edwards.run(t["params"][pidx]["op"], workroot)
+        print(("REPLAY-FAIL: " if r["status"] == "violation" else "REPLAY-END-REACHED: ") + (r["detail"] or r["status"]))
+        return 1 if r["status"] == "violation" else 0
     if t.get("ladder"):
         from . import ladder
         r = ladder.run(tname, workroot)
